@@ -465,3 +465,44 @@ def _own_nodes_(fnode):
         if isinstance(n, (ast.FunctionDef, ast.AsyncFunctionDef, ast.Lambda, ast.ClassDef)):
             continue
         stack.extend(ast.iter_child_nodes(n))
+
+
+def _is_sentinel(node):
+    """`<x>.empty` (inspect's marker for "no default / no annotation") or the package's own `_util.UNSET`"""
+    return isinstance(node, ast.Attribute) and node.attr in ('empty', 'UNSET')
+
+
+def rule_sentinel_identity(check, rule, modules, what, floor=1):
+    """"has a default" / "has an annotation" is a question about the marker object, not about what the default compares equal to.
+    Every comparison against `<x>.empty` (or `_util.UNSET`) in the given modules is by identity: `==`/`!=` hands the decision to the
+    __eq__ of a user-supplied default or annotation (mock.ANY answers True for everything, a numpy array answers with an array whose
+    truth value raises), which then is taken for a missing one or the other way round."""
+    repo = check.repo
+    n = 0
+    for mname in modules:
+        m = repo.modules.get(mname)
+        if m is None:
+            continue
+        for fi in m.funcs.values():
+            for x in _own_nodes_(fi.node):
+                if not isinstance(x, ast.Compare):
+                    continue
+                ops = [x.left] + list(x.comparators)
+                for i, op in enumerate(x.ops):
+                    a, b = ops[i], ops[i + 1]
+                    if not (_is_sentinel(a) or _is_sentinel(b)):
+                        continue
+                    n += 1
+                    check.analysed(fi)
+                    other = b if _is_sentinel(a) else a
+                    key = 'sentinel|%s|%s' % (fi.key, norm_locals(fi.node, other, method=fi.cls is not None))
+                    st = '%s %s' % (fi.loc(x), fi.key)
+                    if isinstance(op, (ast.Is, ast.IsNot)):
+                        check.holds(rule, st, '%s: the marker is compared by identity' % norm(x)[:60], key=key)
+                    elif isinstance(op, (ast.Eq, ast.NotEq)):
+                        check.violation(rule, st, '%s decides "is there a value" with the __eq__ of the value: a default or annotation that compares equal to '
+                                        'everything is taken for a missing one (and one whose comparison does not give a bool raises) %s' % (norm(x)[:60], what),
+                                        key=key, witness='def f(a, b=unittest.mock.ANY): ... / a numpy array as default')
+                    else:
+                        check.holds(rule, st, '%s: not an equality test' % norm(x)[:60], key=key, nontrivial=False)
+    check.floor(rule, 'comparisons against the empty marker', n, floor)
